@@ -206,6 +206,10 @@ func expand(hist []string, param json.RawMessage) statemc.Result {
 func main() {
 	flag.Parse()
 	par.ServeIfWorker(map[string]par.Handler{"x": statemc.Handler(expand)})
+	if v, ok := ev.ReplayRequested(); ok {
+		statemc.Replay(v, expand)
+		return
+	}
 	r := ev.Start("C01")
 	defer r.RecoverMain()
 	defer world.Cleanup()
